@@ -13,7 +13,13 @@ client's receive log must equal the spec's inbox (type, from, to, author,
 sequence number), so isolation, the overwritten `from`, exact addressing,
 broadcast scope, per-pair order, no duplication / loss and the
 unknown-addressee error are all decided on the real logs.  A concurrent
-phase (all clients sending at once) is judged by per-pair predicates.
+phase (driver routing-concurrent: nine clients in three sessions that use the
+same peer ids send addressed, broadcast, spoofed and unknown-addressee
+messages at the same time) is judged by the per-pair predicates of the
+property on the receive logs: own session only, true `from`, exact
+addressing, strictly increasing sequence numbers per author (no duplicate, no
+reordering), nothing lost, one error report per unknown addressee, to the
+author only.
 """
 import os
 import vlib
@@ -42,11 +48,16 @@ def run(tier, seed):
     res = vlib.run_vh_sharded(['routing', '-edges', ep, '-thruserv', srv], shards, timeout=3000)
     for viol in res['violations']:
         v.violation(viol['sig'], viol.get('replay'))
+    # concurrent phase: every client of three sessions (same peer ids in each) sends at once
+    conc = vlib.run_vh_sharded(['routing-concurrent', '-thruserv', srv, '-rounds', '8' if tier == "quick" else '60'], 4, timeout=1800)
+    for viol in conc['violations']:
+        v.violation(viol['sig'], viol.get('replay'))
     v.coverage = dict(states=r['distinct'], transitions=r['generated'], traces_validated_against_impl=res['behaviours'],
                       samples=res['samples'][:4],
                       tlc=dict(exhaustive=dict(config=SMALL, depth=depth, generated=r['generated'], distinct=r['distinct']),
                                simulate=dict(config=BIG, traces=nsim, depth=dsim, states=vlib.sim_states(rs))),
                       replay=dict(histories=res['behaviours'], steps=res['steps'], long_histories=res['distinct'],
+                                  concurrent_rounds=conc['behaviours'], concurrent_messages_judged=conc['extra'].get('messages_judged'),
                                   inbox_mismatches=res['drift'], actions_exercised=res['extra'].get('actions_exercised')))
     v.assumptions = ["rate limits off, at most a few undelivered messages per recipient (the 256-entry queue never fills)",
                      "steps are executed one after the other with a settle wait (2 s max) before inboxes are compared; concurrency inside the hub is C11's subject",
